@@ -361,6 +361,14 @@ Theorem c09_rng_fill_is_one_read :
 Proof. exact fill_rand_single. Qed.
 Print Assumptions c09_rng_fill_is_one_read.
 
+(* ... and for every length fillRand fills the whole buffer (no stale bytes left in a nonce) *)
+Theorem c09_rng_fill_total :
+  forall (key : Type) (E : key -> list Z -> list Z) (fresh : nat -> key * list Z) (fuel : nat) (n : Z) (r : rng key),
+    (forall k s, length (E k s) = 16%nat) -> 0 <= n -> n <= Z.of_nat fuel ->
+    Z.of_nat (length (snd (fill_rand key E fresh fuel n r))) = n.
+Proof. exact fill_rand_length. Qed.
+Print Assumptions c09_rng_fill_total.
+
 Example c09_rng_example :
   rng_inv Z ex_rng /\
   (let '(r, outs) := rng_reads Z toy_E ex_fresh [16; 12; 16; 0; 16] ex_rng in
